@@ -51,7 +51,7 @@ def tags(T):
     return out
 
 
-def plan(tier, seed):
+def _plan0(tier, seed):
     R, T_ = (3, 4) if tier == 'quick' else (4, 5)
     rs = ranges(R)
     units = []
@@ -60,6 +60,17 @@ def plan(tier, seed):
         units.append({'kind': 'pairs', 'ranges': rs[i:i + chunk], 'T': T_, 'seed': seed + i})
     for i in range(48 if tier == 'quick' else 480):
         units.append({'kind': 'docs', 'seed': seed * 30011 + i, 'n': 160 if tier == 'quick' else 400})
+    return units
+
+
+def plan(tier, seed):
+    """... plus the shared 'lazy' units: iselect consumed step by step while the caller edits, between two items, exactly what
+    this property's pseudo-classes depend on (vlib/lazy.py; the rest of the iteration must be what the selector designates on
+    the tree as it is now)."""
+    units = _plan0(tier, seed)
+    themes = ['lang']
+    k = 16 if tier == 'quick' else 160
+    units += [{'kind': 'lazy', 'theme': themes[i % len(themes)], 'seed': seed * 65521 + i, 'n': 60 if tier == 'quick' else 200} for i in range(k)]
     return units
 
 
